@@ -116,6 +116,17 @@ func Topo(kind string, shape PathShape, goFunc bool, root string, n int) *spec.S
 		conn("src.out", "A.in")
 		conn("A.out", "B.in")
 		conn("A.res", "C.in")
+	case "implicit":
+		// A's only out-port exists through SetOut alone: the command names that file itself (a tool that derives
+		// the name of its result from its input)
+		addSrc("src", n)
+		pat, _ := outPattern(shape, root, "A", "idx", true)
+		s.Procs = append(s.Procs, &spec.Proc{Name: "A", Kind: pk, Cmd: spec.VcmdPath + " run id=A i=in:{i:in} o=idx:" + pat, Outs: []*spec.Out{{Port: "idx", Pattern: pat}}})
+		addProc("B", in, []string{"out"}, nil, nil, spec.KCmd)
+		addProc("C", in, []string{"out"}, nil, nil, spec.KCmd)
+		conn("src.out", "A.in")
+		conn("A.idx", "B.in")
+		conn("B.out", "C.in")
 	case "streamtwo":
 		// a process with a streaming output and two file outputs, each with a consumer of its own
 		addSrc("src", n)
